@@ -297,6 +297,10 @@ def oracle_c17(out: Dict[str, Any], workers: int, max_fails: Optional[int] = Non
     if max_fails is not None and max_fails < 1 and out.get("returned") and out.get("ret") == -1:
         # "unless it has exhausted its failure budget": there is no budget to exhaust when max_fails < 1
         v.append(Violation("gave-up-without-budget", f"start() returned -1 (stopped supervising) although max_fails={max_fails} means no failure budget"))
+    if max_fails is not None and max_fails >= 1 and out.get("returned") and out.get("ret") == -1:
+        told = {e[3] for e in tr if e[1] == "is_alive" and e[4] is False}
+        if len(told) < max_fails:
+            v.append(Violation("gave-up-before-budget-exhausted", f"start() returned -1 after only {len(told)} worker deaths were seen, max_fails={max_fails}: the dead worker is not replaced although the budget is not exhausted"))
     slots = {f"worker-{i}" for i in range(workers)}
     started_slots = set()
     for e in tr:
